@@ -1,6 +1,7 @@
 import H4.Driver.Util
 import H4.Driver.Rle
 import H4.Driver.Slab
+import H4.Driver.Conv
 open H4.Driver
 
 /-- state of every stateful engine; reset at each `CASE` line -/
@@ -11,6 +12,7 @@ def stepWorld (w : World) (engine : String) (args : List String) : World × Stri
   match engine with
   | "rle" => (w, stepRle args)
   | "sd" => (w, stepSd args)
+  | "conv" => (w, stepConv args)
   | _ => (w, "bad-engine")
 
 structure RunSt where
